@@ -922,6 +922,12 @@ const c15Bogus = "verif-blocker"
 func c15Lifecycle(c *vk.Case, b *c15Base, doc map[string]any, lifecycle string, o *c15Outcome) (witness map[string]any) {
 	w := b.newWorld()
 	spec := &scen.Spec{Sources: []scen.SourceSpec{{Name: "src-a", Node: w.nodeA}, {Name: "src-b", Node: w.nodeB}}}
+	if pooler := strings.TrimSuffix(lifecycle, "+pooler"); pooler != lifecycle {
+		// pg_url as one writes it for a transaction pooler (no prepared statements kept): whatever the pool does
+		// with it, values still travel as parameters or COPY data or not at all
+		spec.PGParams, lifecycle = "&statement_cache_capacity=0", pooler
+		c.Obs("lifecycles_with_statement_cache_off", 1)
+	}
 	var confText []byte
 	env, err := scen.NewRaw(spec, func(pgurl string) []byte { confText = w.fileConfig(doc, pgurl); return confText }, false, nil)
 	if err != nil {
@@ -1241,6 +1247,12 @@ func c15Run(c *vk.Case) {
 				c.Inconclusive("the base configuration does not run (%s): %+v %v", lc, *o, wit["save_integration_reply"])
 			}
 			c.Sample(map[string]any{"base_file_config": wit["config"], "base_dashboard_integration": wit["post_save_integration"], "positions": len(all), "path_classes": len(order), "outcome": o})
+		}
+		for _, lc := range []string{"file+pooler", "dashboard+pooler"} {
+			// (no vacuity guard: with the statement cache off the unchanged pool refuses every parameterised query)
+			o := &c15Outcome{Lifecycle: lc, Path: "(base)", Class: "(base)", String: "none"}
+			c15Lifecycle(c, b, b.doc, lc, o)
+			c.Sample(map[string]any{"statement_cache_off": lc, "outcome": o})
 		}
 		c.Obs("positions", int64(len(all)))
 		c.Obs("path_classes", int64(len(order)))
